@@ -60,7 +60,9 @@ META = {
             'ok/failed/error), --continue/--always, selection all/names/targets, runner serial | thread k=1..4 x schedule '
             'policy | process k=2,3; plus namespaces with @create_after creators (with / without executed=) yielding sub-tasks '
             'with teardown -- tasks created at run time reach worker processes as whole pickled Task objects -- under '
-            'serial / thread / process k=1..3 (teardown monitors only; K skipped: delayed creation is not in M1); exhaustive tier: every DAG on <=3 tasks with task_dep/setup edges x every completion '
+            'serial / thread / process k=1..3 (teardown monitors only; K skipped: delayed creation is not in M1); tasks with '
+            'equal explicit `setup` get ONE list object in the namespace, and a structured family has several tasks '
+            'sharing a setup list with a getargs task, selections without the getargs task; exhaustive tier: every DAG on <=3 tasks with task_dep/setup edges x every completion '
             'order with 2 worker threads (thorough: <=4 tasks); non-trivial = a setup edge or a teardown task in the case and at least one task '
             'reported; distinct = distinct rendered case + schedule',
     'assumptions': ['actions touch only their own targets (granularity assumption of M1 for thread mode)',
@@ -122,12 +124,18 @@ def _build_namespace(case, rec):
                 name = msg.split("task '", 1)[1].split("'", 1)[0]
             rec.ev(['cleanup_error', rec.ids.get(name, name), who()])
 
+    shared = {}     # one list OBJECT for all tasks whose explicit `setup` has the same content (a dodo file doing
+    #                 `COMMON = ['env']; ... 'setup': COMMON`): doit must not let one task's implicit additions
+    #                 (getargs -> setup-task) leak into the others
+
     def task_gen():
         for d in gen():
             nm = d['basename'] if d.get('name') is None else '%s:%s' % (d['basename'], d['name'])
             n = idx.get(nm)
             if n is not None and 'teardown' in d:
                 d['teardown'] = [_make_td(rec, n, tasks[n].get('td_fail'), who)]
+            if d.get('setup'):
+                d['setup'] = shared.setdefault(tuple(d['setup']), d['setup'])
             yield d
     ns['task_gen'] = task_gen
     cfg = dict(ns['DOIT_CONFIG'])
@@ -404,6 +412,54 @@ def gen_case(seed, knobs):
     return c
 
 
+def gen_shared_setup(seed, knobs):
+    """structured family: several tasks use the same `setup` list (one list object in the namespace), one of them also
+    has getargs (an implicit setup-task of that task only); random oracle, selection (often without the getargs task),
+    runner.  Plain runlib case format: (K) and all monitors apply."""
+    rng = random.Random(seed)
+    T = runlib._new_task
+    envs = [T('env%d' % i) for i in range(rng.choice([1, 1, 2]))]
+    common = [e['name'] for e in envs]
+    ver = T('version')
+    build = T('build')
+    build['setup'] = list(common)
+    build['getargs'] = [['a0', 'version', 'v']]
+    sharers = []
+    for i in range(rng.choice([1, 1, 2])):
+        d = T(['docs', 'lint'][i])
+        d['setup'] = list(common)
+        sharers.append(d)
+    extra = []
+    if rng.random() < 0.4:
+        x = T('pkg')
+        x['task_dep'] = [rng.choice(['build'] + [d['name'] for d in sharers])]
+        extra.append(x)
+    tasks = envs + [ver, build] + sharers + extra
+    for t in tasks:
+        t['teardown'] = rng.random() < 0.5
+        if t['name'] != 'version' and rng.random() < 0.12:
+            t['outcome'] = rng.choice(['failed', 'error'])
+        if t['name'] not in ('version', 'build') and not t['name'].startswith('env') and rng.random() < 0.15:
+            t['status'] = 'utd'
+        if t['name'] != 'build' and rng.random() < 0.05:
+            t['ignored'] = True
+    rng.shuffle(tasks)
+    runner = knobs.get('runner', 'serial')
+    names = [t['name'] for t in tasks]
+    pool = [d['name'] for d in sharers] * 3 + [x['name'] for x in extra] + common
+    sel = list(dict.fromkeys(rng.choice(pool) for _ in range(rng.choice([1, 1, 2]))))
+    if rng.random() < 0.2:
+        sel = None if rng.random() < 0.5 else list(dict.fromkeys(sel + ['build']))
+    case = {'tasks': tasks, 'sel': sel, 'cont': rng.random() < 0.4, 'always': False, 'runner': runner,
+            'nproc': 0 if runner == 'serial' else rng.randint(1, 3),
+            'policy': runlib.gen_policy(rng, 3) if runner == 'thread' else {'kind': 'seeded', 'seed': rng.randrange(1 << 30)},
+            'family': 'shared_setup_list', 'seed': seed}
+    assert set(names) >= set(sel or [])
+    case['model'] = runlib.expand(case)
+    decorate(case, rng, 0.15)
+    return case
+
+
 def nontrivial(case, obs):
     m = case.get('model') or runlib.expand(case)
     feature = any(m['setup'][i] for i in range(m['n'])) or any(t['teardown'] for t in case['tasks'])
@@ -425,6 +481,13 @@ def count_case(st, case, obs, mixed):
     n = m['n']
     parents = [i for i in range(n) if m['setup'][i]]
     st.count('c11:setup_parents', len(parents))
+    if case.get('family'):
+        st.count('c11:family:%s' % case['family'])
+    explicit = [tuple(t['setup']) for t in case['tasks'] if t.get('setup')]
+    if len(explicit) != len(set(explicit)):
+        st.count('c11:setup_list_object_shared')
+        if any(t.get('setup') and t.get('getargs') and explicit.count(tuple(t['setup'])) > 1 for t in case['tasks']):
+            st.count('c11:setup_list_shared_with_getargs_task')
     for i in parents:
         t = case['tasks'][i]
         kind = 'ignored' if t['ignored'] else t['status']
@@ -919,7 +982,8 @@ def eval_batch(batch):
         o, mx = observe(c)
         triples.append((c, o, mx))
     for seed, knobs in batch.get('gen', []):
-        c = gen_delayed(seed, knobs) if knobs.get('delayed') else gen_case(seed, knobs)
+        c = gen_delayed(seed, knobs) if knobs.get('delayed') else \
+            gen_shared_setup(seed, knobs) if knobs.get('shared_setup') else gen_case(seed, knobs)
         o, mx = observe(c)
         triples.append((c, o, mx))
     for c in batch.get('exhaustive', []):
@@ -993,6 +1057,8 @@ def plan(ctx, scale=1.0):
         gen.append((rng.randrange(1 << 60), dict(KNOBS, runner='thread', gen_policy=True)))
     for _ in range(int((40 if quick else 600) * ctx.boost * scale)):
         gen.append((rng.randrange(1 << 60), {'delayed': True, 'runner': rng.choice(['serial', 'thread'])}))
+    for _ in range(int((60 if quick else 800) * ctx.boost * scale)):
+        gen.append((rng.randrange(1 << 60), {'shared_setup': True, 'runner': rng.choice(['serial', 'serial', 'thread'])}))
     rng.shuffle(gen)
     size = 20 if quick else 60
     pool = [{'gen': gen[i:i + size], 'shrink_s': 12.0} for i in range(0, len(gen), size)]
